@@ -259,6 +259,10 @@ func (p *Parser) ParseVCL() (*ast.VCL, error) {
 			vcl.Statements = append(vcl.Statements, stmt)
 		}
 	}
+	// The comments after the last statement are in front of EOF
+	if len(p.curToken.Leading) > 0 {
+		vcl.Trailing = p.curToken.Leading
+	}
 
 	return vcl, nil
 }
